@@ -14,7 +14,7 @@ import datetime
 import decimal
 import xml.etree.ElementTree as ET
 
-from codec import canon_inst, canon_val
+from codec import canon_inst, canon_val, canon_tree, text
 from gen.instances import Gen, concrete_classes
 from corr.agg_common import blame_class, fromtree_line, quiet, model_ok_err
 from corr import types_common as T
@@ -115,10 +115,14 @@ def run(ctx):
     reps = ctx.budget(1, 12)
     lines, meta = [], []
     for c in classes:
-        for _ in range(reps):
-            d, inst = gen.valid_instance(c["name"])
+        # the classes whose reader renames a child (groom) get one more document in which that child is present
+        forced = [[c["groom"][1].lower()]] if c.get("groom") else []
+        for frc in [None] * reps + forced:
+            d, inst = gen.valid_instance(c["name"], force=frc)
             if d is None:
                 continue
+            if frc:
+                ctx.stat("renamed_child_present")
             tree = inst.to_etree()
             expected = {}      # path tuple -> expected
 
@@ -162,7 +166,11 @@ def run(ctx):
             meta.append((c["name"], tree, expected, r, inst))
             lines.append(fromtree_line(tree))
     replies = ctx.model.ask(lines)
-    for (name, tree, expected, r, inst0), rep in zip(meta, replies):
+    # whole-document specification (Spec/DocValues.lean: docValues / instValues, the objects of the C03_deep_* theorems),
+    # asked for the same documents
+    deep = _deep_replies(ctx, [m[1] for m in meta])
+    for k, ((name, tree, expected, r, inst0), rep) in enumerate(zip(meta, replies)):
+        _deep_compare(ctx, name, tree, expected, r, deep[k])
         impl = ["ok", canon_inst(r[1])] if r[0] == "ok" else ["err"]
         model = model_ok_err(rep)
         case = {"cls": name, "tree": ET.tostring(tree, encoding="unicode")[:3000]}
@@ -226,6 +234,100 @@ def run(ctx):
         if extra:
             ctx.violate("value_not_in_document", dict(case, paths=[str(p) for p in sorted(extra, key=str)][:5]),
                         f"{name}: the model holds values at {sorted(extra, key=str)[:3]} that no data element of the document supplies")
+
+
+def _path_key(p):
+    """protocol path ((a xHEX) | (i N)) ... -> the tuple form used by `walk` / `collect`"""
+    from proto import dstr
+    return tuple(dstr(st[1]) if st[0] == "a" else ("item", int(st[1])) for st in p)
+
+
+def _collect_values(inst):
+    """walk of the real converted instance: path -> value, every leaf other than None (the code-side twin of
+    Spec.instValues)"""
+    from ofxtools.models.base import Aggregate
+    out = {}
+
+    def go(obj, path):
+        for k, v in obj.__dict__.items():
+            if isinstance(v, Aggregate):
+                go(v, path + (k,))
+            elif v is not None:
+                out[path + (k,)] = v
+        for j, m in enumerate(list.__iter__(obj)):
+            if isinstance(m, Aggregate):
+                go(m, path + (("item", j),))
+            elif m is not None:
+                out[path + (("item", j),)] = m
+    go(inst, ())
+    return out
+
+
+def _deep_registered():
+    """the driver ops of Drv/DocValues.lean exist once the handler is registered in Drv/All.lean (the integrator does
+    that from the handoff); until then the whole-document comparison is skipped, afterwards a missing op is an error"""
+    import os
+    import framework
+    try:
+        with open(os.path.join(framework.LEAN, "OfxModel", "Drv", "All.lean"), encoding="utf-8") as f:
+            return "Ofx.Drv.DocValues.handle" in f.read()
+    except OSError:
+        return False
+
+
+def _deep_replies(ctx, trees):
+    if not _deep_registered():
+        ctx.stat("deep:skipped_handler_not_registered")
+        return [None] * len(trees)
+    lines = []
+    for t in trees:
+        ct = text(canon_tree(t))
+        lines.append("spec.docvalues " + ct)
+        lines.append("spec.instvalues " + ct)
+    reps = ctx.model.ask(lines) if lines else []
+    return [(reps[2 * i], reps[2 * i + 1]) for i in range(len(trees))]
+
+
+def _deep_compare(ctx, name, tree, expected, r, reps):
+    """ties Spec.docValues / Spec.instValues (the objects of C03_deep_value / C03_deep_nothing_invented) to the code:
+    * instValues(model from_etree(t))  ==  the walk of the instance the real from_etree returns (paths and values);
+    * docValues(t): its (path, text) list == the data elements the harness's own walk of the document found, and
+      its paths == the paths at which the real instance holds a value (up to texts that denote the empty string)."""
+    from proto import dstr
+    if reps is None:
+        return
+    drep, irep = reps
+    case = {"cls": name, "tree": ET.tostring(tree, encoding="unicode")[:3000]}
+    if drep.kind != "ok":
+        ctx.disagree("spec.docvalues", case, "ok", drep.raw)
+        return
+    doc = {}
+    for pv in drep.vals[0]:
+        doc[_path_key(pv[0])] = dstr(pv[1])
+    mine = {p: t for p, (_, t, _) in expected.items() if t}
+    ctx.compare("spec.docvalues", case, sorted((str(p), t) for p, t in mine.items()),
+                sorted((str(p), t) for p, t in doc.items()), nontrivial=len(doc) > 1)
+    if r[0] != "ok":
+        ctx.compare("spec.instvalues", case, ["err"], ["err"] if irep.kind == "err" else ["ok?", irep.raw[:200]],
+                    nontrivial=False)
+        return
+    real = _collect_values(r[1])
+    impl = sorted((str(p), text(canon_val(v))) for p, v in real.items())
+    if irep.kind != "ok":
+        ctx.disagree("spec.instvalues", case, impl[:20], irep.raw[:300])
+        return
+    model = sorted((str(_path_key(pv[0])), text(pv[1])) for pv in irep.vals[0])
+    ctx.compare("spec.instvalues", case, impl, model, nontrivial=len(model) > 1)
+    # the document's addressed elements and the real instance's values sit at the same places
+    ctx.evaluations += 1
+    missing = [p for p in doc if p not in real and not (T.ref_decode(doc[p]) == "")]
+    extra = [p for p in real if p not in doc]
+    if missing or extra:
+        ctx.disagree("spec.docvalues.paths", case, {"only_in_instance": [str(p) for p in extra[:5]]},
+                     {"only_in_document": [str(p) for p in missing[:5]]})
+    ctx.stat("deep:max_depth=%d" % max([len(p) for p in doc] or [0]))
+    if any(isinstance(st, tuple) for p in doc for st in p):
+        ctx.stat("deep:with_list_member")
 
 
 def _render(rng, tree):
